@@ -309,12 +309,18 @@ def r3(R3, cfg, F):
     R3.check(ok, cfg, cb.path, 'child-extends-on-Ok-only;Err-skipped', 'a child directory must contribute its ids only when it loads, and a failing child must be skipped without any effect', cb.loc())
     # default sub_directories forwards exactly the Directory arm
     sb = F.body('dirs::DirLoadable::sub_directories')
-    scb = F.body('dirs::DirLoadable::sub_directories::{closure#0}')
+    rd = [c for c in sb.calls() if c.callee and c.callee.name == 'read_dir'] if sb else []
+    scb = None
+    if len(rd) == 1 and len(rd[0].args) >= 3:
+        # the call-back handed to read_dir, wherever it is written (in the method, or in a helper written in place)
+        dp = common.strip_refs(common.deep_path(sb, rd[0].args[2], at=rd[0].bb))
+        m_ = re.match(r'agg@bb(\d+)\.(\d+)$', dp[0]) if len(dp) == 1 else None
+        lit = sb.blocks[int(m_.group(1))]['stmts'][int(m_.group(2))] if m_ else None
+        scb = F.body(lit['rv'].get('closure')) if lit is not None and lit['rv'].get('closure') else None
     if not sb or not scb:
         R3.missing(cfg, 'DirLoadable::sub_directories')
         return
-    rd = [c for c in sb.calls() if c.callee and c.callee.name == 'read_dir']
-    ok = len(rd) == 1 and sb.origins(rd[0].args[1], passthrough=common.pt_deref) == {('arg', 2)} and rd[0].dest['l'] == 0
+    ok = len(rd) == 1 and sb.origins(rd[0].args[1], passthrough=common.pt_deref) == {('arg', 2)} and (rd[0].dest['l'] == 0 or sb.origins(0) == {('call', rd[0].bb)})
     if ok:
         src = sb.call_roots(rd[0].args[0])
         ok = len(src) == 1 and src[0].callee.name == 'raw_source' and sb.origins(src[0].args[0]) == {('arg', 1)}
